@@ -118,7 +118,7 @@ struct PktGen {
             case 3: c->mtu(ICMPv6::mtu_type((u16)r.next(), (u32)r.next())); break;
             case 4: { ICMPv6::recursive_dns_type t; t.lifetime = (u32)r.next(); for (u32 k = 1 + r.below(2); k--;) t.servers.push_back(ip6()); c->recursive_dns_servers(t); break; }
             case 5: { ICMPv6::route_info_type t; t.prefix_len = (u8)r.below(129); t.pref = r.below(4); t.route_lifetime = (u32)r.next(); t.prefix = r.bytes(8 * r.below(3)); c->route_info(t); break; }
-            case 6: { Bytes b = r.bytes(6 + 8 * (r.chance(1, 6) ? 30 + r.below(40) : r.below(3))); c->add_option(ICMPv6::option((u8)(40 + r.below(100)), b.begin(), b.end())); break; }   // sometimes >= 256 octets (e.g. redirected header)
+            case 6: { Bytes b = r.bytes(6 + 8 * (r.chance(1, 3) ? 30 + r.below(40) : r.below(3))); c->add_option(ICMPv6::option((u8)(40 + r.below(100)), b.begin(), b.end())); break; }   // sometimes >= 256 octets (e.g. redirected header)
             default: c->nonce(r.bytes(6 + 8 * r.below(2))); }
         note("ICMPv6(" + std::to_string((int)ty) + ",o" + std::to_string(n) + ")");
         if (!nd && ty != ICMPv6::MLD2_REPORT && ty != ICMPv6::MGM_QUERY && r.chance(2, 3)) c->inner_pdu(raw());
